@@ -319,7 +319,7 @@ def mnemonic_list(draw, n, section=None, collide=True):
     return out
 
 
-INTS = st.one_of(st.sampled_from([0, 1, -1, 7, 42, -999, 2 ** 31, 2 ** 40 + 1, 10 ** 15, -(2 ** 52)]),
+INTS = st.one_of(st.sampled_from([0, 1, -1, 7, 42, -999, 2 ** 31, 2 ** 40 + 1, 10 ** 15, -(2 ** 52), 2 ** 53 + 1, 36028797018963969, -(2 ** 62) - 3]),
                  st.integers(-10 ** 6, 10 ** 6))
 FINITE = st.one_of(
     st.sampled_from([0.0, -0.0, 1.5, -999.25, 0.1, 1e-300, 1.7976931348623157e308, 2.0, 100.0, -9999.25, 1e22,
